@@ -38,6 +38,7 @@ type vCase struct {
 	Chunk   int    `json:"chunk"`
 	Seed    int64  `json:"seed"`
 	EOFWith bool   `json:"eof_with_data"` // the reader returns io.EOF together with the last chunk
+	Cls     string `json:"cls"`
 }
 
 type vEvent map[string]interface{}
@@ -50,6 +51,8 @@ type recWriter struct {
 	held    chan struct{} // closed when the held write has arrived
 	release chan struct{} // closed to let the held write proceed
 	once    sync.Once
+	delay   time.Duration // every write takes this long (a slow but healthy output)
+	stall   time.Duration // the FIRST write takes this long (a consumer that stalls once)
 }
 
 func (w *recWriter) Write(p []byte) (int, error) {
@@ -60,6 +63,12 @@ func (w *recWriter) Write(p []byte) (int, error) {
 	if w.hold > 0 && n == w.hold {
 		w.once.Do(func() { close(w.held) })
 		<-w.release
+	}
+	if w.delay > 0 {
+		time.Sleep(w.delay)
+	}
+	if w.stall > 0 && n == 1 {
+		time.Sleep(w.stall)
 	}
 	w.mu.Lock()
 	w.buf = append(w.buf, p...)
@@ -220,10 +229,25 @@ func TestVerifApps(t *testing.T) {
 				dir := t.TempDir()
 				fcfg := &jsonconfig.Config{DisplayMessages: c.Display, RecordMessages: c.Record, MessageLogDirectory: dir}
 				fw := &recWriter{held: make(chan struct{}), release: make(chan struct{})}
+				if c.Cls == "c11-devfull" {
+					// the display log's filestore is full (today's file name is a link to /dev/full: every write fails with
+					// ENOSPC) and standard output is slow: the healthy outputs are still complete at the return
+					day := time.Now().Format("2006-01-02")
+					os.Symlink("/dev/full", filepath.Join(dir, "rtcm."+day+".txt"))
+					fw.delay = 15 * time.Millisecond
+				}
+				if c.Cls == "c11-stall" {
+					// the consumer of standard output stalls for several seconds on its first write while more messages
+					// follow: it still gets every message (nothing gives up on a slow consumer)
+					fw.stall = time.Duration(c.Hold) * time.Millisecond
+				}
 				readAll := func() string {
 					var sb strings.Builder
 					ents, _ := os.ReadDir(dir)
 					for _, e := range ents {
+						if e.Type()&os.ModeSymlink != 0 {
+							continue // never read the /dev/full link: it is an endless source
+						}
 						b, _ := os.ReadFile(filepath.Join(dir, e.Name()))
 						sb.WriteString(e.Name()[:strings.Index(e.Name()+".", ".")])
 						sb.WriteString(":")
@@ -249,7 +273,7 @@ func TestVerifApps(t *testing.T) {
 					recOK = false
 					ents, _ := os.ReadDir(dir)
 					for _, e := range ents {
-						if strings.HasSuffix(e.Name(), ".rtcm") {
+						if strings.HasSuffix(e.Name(), ".rtcm") && e.Type()&os.ModeSymlink == 0 {
 							b, _ := os.ReadFile(filepath.Join(dir, e.Name()))
 							recOK = bytes.Equal(b, want)
 						}
@@ -339,6 +363,13 @@ func TestVerifApps(t *testing.T) {
 			dir := t.TempDir()
 			cfg := &jsonconfig.Config{DisplayMessages: c.Display, RecordMessages: c.Record, MessageLogDirectory: dir}
 			w := &recWriter{held: make(chan struct{}), release: make(chan struct{})}
+			if strings.HasPrefix(c.Cls, "stall") {
+				// whoever reads standard output stalls for several seconds on the first write: every valid frame still comes out
+				w.stall = 5500 * time.Millisecond
+				if c.Cls == "stall-long" {
+					w.stall = 12 * time.Second
+				}
+			}
 			day1 := time.Now().Format("2006-01-02")
 			d := runHandle(in, w, cfg, c)
 			ret := ""
